@@ -44,6 +44,7 @@ type observation struct {
 	Infra     string       `json:"infra,omitempty"`
 	Recovered bool         `json:"recovered"`
 	Attempts  int          `json:"recovery_attempts"`
+	Nonce     int32        `json:"-"`
 	Panics    []string     `json:"panics,omitempty"`
 	WallMs    int64        `json:"wall_ms"`
 }
@@ -60,6 +61,7 @@ type scen struct {
 	pan   []string
 	nOk   int64
 	nMade int64
+	nonce int32
 	gate  chan struct{} // non-nil: the consumer's makeData blocks until it is closed
 	gated int32
 }
@@ -67,7 +69,7 @@ type scen struct {
 func (sc *scen) backlog() int64 { return atomic.LoadInt64(&sc.nOk) - atomic.LoadInt64(&sc.nMade) }
 
 func (sc *scen) doSend(r *vh.Rng, sender, seq, big int) *sendRec {
-	tp, pcode := genPack(r, sender, seq, big)
+	tp, pcode := genPack(r, sc.nonce, sender, seq, big)
 	lic := r.PickStr(licenses)
 	eff := lic
 	if eff == "" {
@@ -177,7 +179,8 @@ func runScenario(spec scenarioSpec) *observation {
 		obs.Infra = "listen: " + err.Error()
 		return obs
 	}
-	sc := &scen{spec: spec, clk: clk, lg: lg, srv: srv}
+	sc := &scen{spec: spec, clk: clk, lg: lg, srv: srv, nonce: int32(vh.NewRng(spec.Seed ^ uint64(time.Now().UnixNano())).U64())}
+	obs.Nonce = sc.nonce
 	if len(spec.Reconfig) > 0 && spec.Mode == "queue" {
 		sc.gate = make(chan struct{})
 		sc.gated = 1
